@@ -200,9 +200,12 @@ impl<'a, F: IVP> SolOut for DefaultSolOut<'a, F> {
                         let mut fa = g_prev;
                         let mut fb = g_curr;
 
-                        let (event_t, event_y) = if fa.abs() <= XTOL {
+                        // XTOL is a tolerance on the abscissa; the function values can only be
+                        // compared with zero itself (as brentq does), otherwise an event function
+                        // with small values is "located" at a step end far from its root.
+                        let (event_t, event_y) = if fa == 0.0 {
                             (a, self.yold.clone())
-                        } else if fb.abs() <= XTOL {
+                        } else if fb == 0.0 {
                             (b, y.to_vec())
                         } else {
                             // Brent's method
